@@ -82,12 +82,13 @@ theorem pick_push_front (L : List Line) (μ : List Bool) (j : Nat) (hj : j < L.l
   rw [List.set_set, set_self_false μ j hf] at h
   exact h.symm
 
-/-- The line at absent `j` and present `d > j` are the same: moving it up. -/
-theorem pick_move_up (L : List Line) (μ : List Bool) (j d : Nat) (hjd : j < d) (hd : d < L.length)
+/-- The lines at absent `j` and present `d > j` are `E`-related: moving it up. -/
+theorem pick_move_up (E : Line → Line → Prop) (L : List Line) (μ : List Bool) (j d : Nat)
+    (hjd : j < d) (hd : d < L.length)
     (hl : μ.length = L.length) (hf : μ.getD j false = false) (ht : μ.getD d false = true)
-    (heq : L[j] = L[d])
+    (heq : E L[d] L[j])
     (hsw : ∀ k, (hk : k < L.length) → j < k → k < d → μ.getD k false = true → swappable L[d] L[k]) :
-    BlockEq (pick L μ) (pick L ((μ.set d false).set j true)) := by
+    BlockEqG E (pick L μ) (pick L ((μ.set d false).set j true)) := by
   induction L generalizing μ j d with
   | nil => simp at hd
   | cons y L ih =>
@@ -105,7 +106,7 @@ theorem pick_move_up (L : List Line) (μ : List Bool) (j d : Nat) (hjd : j < d) 
           subst hf
           simp only [List.getElem_cons_zero, List.getElem_cons_succ] at heq
           simp only [List.set_cons_succ, List.set_cons_zero, pick]
-          rw [heq]
+          refine BlockEqG.trans (BlockEq.toG E ?_) (BlockEqG.repl [] _ L[e] y heq)
           apply pick_pull_front L ν e he (by simpa using hl) ht
           intro k hk hke hp
           have := hsw (k + 1) (by simpa using hk) (by omega) (by omega)
@@ -125,11 +126,13 @@ theorem pick_move_up (L : List Line) (μ : List Bool) (j d : Nat) (hjd : j < d) 
           | true => simpa [pick] using ih'.cons y
 
 /-- The same, moving down (`d < j`). -/
-theorem pick_move_down (L : List Line) (μ : List Bool) (j d : Nat) (hdj : d < j) (hj : j < L.length)
+theorem pick_move_down (E : Line → Line → Prop)
+    (hEsw : ∀ a b c, E a b → swappable a c → swappable b c)
+    (L : List Line) (μ : List Bool) (j d : Nat) (hdj : d < j) (hj : j < L.length)
     (hl : μ.length = L.length) (hf : μ.getD j false = false) (ht : μ.getD d false = true)
-    (heq : L[j] = L[d])
+    (heq : E L[d] L[j])
     (hsw : ∀ k, (hk : k < L.length) → d < k → k < j → μ.getD k false = true → swappable L[d] L[k]) :
-    BlockEq (pick L μ) (pick L ((μ.set d false).set j true)) := by
+    BlockEqG E (pick L μ) (pick L ((μ.set d false).set j true)) := by
   induction L generalizing μ j d with
   | nil => simp at hj
   | cons y L ih =>
@@ -147,13 +150,13 @@ theorem pick_move_down (L : List Line) (μ : List Bool) (j d : Nat) (hdj : d < j
           subst ht
           simp only [List.getElem_cons_zero, List.getElem_cons_succ] at heq
           simp only [List.set_cons_succ, List.set_cons_zero, pick]
-          rw [← heq]
+          refine BlockEqG.trans (BlockEqG.repl [] _ y L[e] heq) (BlockEq.toG E ?_)
           apply pick_push_front L ν e he (by simpa using hl) hf
           intro k hk hke hp
           have := hsw (k + 1) (by simpa using hk) (by omega) (by omega)
             (by rw [getD_cons_succ'']; exact hp)
           simp only [List.getElem_cons_zero, List.getElem_cons_succ] at this
-          rw [heq]; exact this
+          exact hEsw _ _ _ heq this
         | succ i =>
           rw [getD_cons_succ''] at ht
           simp only [List.getElem_cons_succ] at heq
@@ -168,12 +171,14 @@ theorem pick_move_down (L : List Line) (μ : List Bool) (j d : Nat) (hdj : d < j
           | true => simpa [pick] using ih'.cons y
 
 /-- Both directions, on cells. -/
-theorem masked_move (M : List Cell) (μ : List Bool) (j d : Nat) (hj : j < M.length) (hd : d < M.length)
+theorem masked_move (E : Line → Line → Prop)
+    (hEsw : ∀ a b c, E a b → swappable a c → swappable b c)
+    (M : List Cell) (μ : List Bool) (j d : Nat) (hj : j < M.length) (hd : d < M.length)
     (hl : μ.length = M.length) (hf : μ.getD j false = false) (ht : μ.getD d false = true)
-    (heq : (M.getD j default).line = (M.getD d default).line)
+    (heq : E (M.getD d default).line (M.getD j default).line)
     (hsw : ∀ k, k < M.length → (j < k ∧ k < d ∨ d < k ∧ k < j) → μ.getD k false = true →
       swappable (M.getD d default).line (M.getD k default).line) :
-    BlockEq (masked M μ) (masked M ((μ.set d false).set j true)) := by
+    BlockEqG E (masked M μ) (masked M ((μ.set d false).set j true)) := by
   rw [masked_eq_pick, masked_eq_pick]
   have hg : ∀ k (hk : k < (M.map (·.line)).length), (M.map (·.line))[k] = (M.getD k default).line := by
     intro k hk
@@ -181,12 +186,12 @@ theorem masked_move (M : List Cell) (μ : List Bool) (j d : Nat) (hj : j < M.len
     simp [List.getD_eq_getElem?_getD, this]
   have hjd : j ≠ d := by intro e; subst e; rw [hf] at ht; exact Bool.noConfusion ht
   rcases Nat.lt_or_gt_of_ne hjd with h | h
-  · apply pick_move_up _ μ j d h (by simpa using hd) (by simpa using hl) hf ht
+  · apply pick_move_up E _ μ j d h (by simpa using hd) (by simpa using hl) hf ht
     · rw [hg, hg]; exact heq
     · intro k hk h1 h2 hp
       rw [hg, hg]
       exact hsw k (by simpa using hk) (Or.inl ⟨h1, h2⟩) hp
-  · apply pick_move_down _ μ j d h (by simpa using hj) (by simpa using hl) hf ht
+  · apply pick_move_down E hEsw _ μ j d h (by simpa using hj) (by simpa using hl) hf ht
     · rw [hg, hg]; exact heq
     · intro k hk h1 h2 hp
       rw [hg, hg]
@@ -194,11 +199,12 @@ theorem masked_move (M : List Cell) (μ : List Bool) (j d : Nat) (hj : j < M.len
 
 /-! ### From the final device list to the target, one suppressed move at a time -/
 
-/-- Every suppressed move (new-only `j ∈ S`, deleted partner `d`) keeps the same line, and every cell
+/-- Every suppressed move (new-only `j ∈ S`, deleted partner `d`) keeps an `E`-related line, and every cell
 strictly between the two positions that belongs to the target, or is itself kept by a suppressed
 move, may be swapped with it. -/
-def SupprOK (M : List Cell) (S : List Nat) : Prop :=
-  ∀ j ∈ S, ∃ d ∈ delIdx M, (M.getD j default).line = (M.getD d default).line ∧
+def SupprOK (E : Line → Line → Prop) (M : List Cell) (S : List Nat) : Prop :=
+  ∀ j ∈ S, ∃ d ∈ delIdx M, (M.getD d default).line.mkey = (M.getD j default).line.mkey ∧
+    E (M.getD d default).line (M.getD j default).line ∧
     ∀ k, k < M.length → (j < k ∧ k < d ∨ d < k ∧ k < j) →
       ((M.getD k default).new = true ∨
         ∃ j' ∈ S, (M.getD j' default).line.mkey = (M.getD k default).line.mkey) →
@@ -266,35 +272,36 @@ theorem finalMask_step (M : List Cell) (hno : ((olds M).map (·.mkey)).Nodup)
               exact hdi (old_mkey_inj M hno hdl hi hdo.1 ho (by rw [hm, hcon]))
             simp [List.any_cons, this]
 
-/-- The final device list of a plan with suppressed moves `S` is block-equivalent to the target if
-every suppressed move is harmless (`SupprOK`). -/
-theorem finalMask_blockEq (M : List Cell) (hno : ((olds M).map (·.mkey)).Nodup)
+/-- The final device list of a plan with suppressed moves `S` is block-equivalent (modulo `E`) to
+the target if every suppressed move is harmless (`SupprOK`). -/
+theorem finalMask_blockEq (E : Line → Line → Prop)
+    (hEsw : ∀ a b c, E a b → swappable a c → swappable b c)
+    (M : List Cell) (hno : ((olds M).map (·.mkey)).Nodup)
     (hnn : ((news M).map (·.mkey)).Nodup) (S : List Nat) (hS : ∀ j ∈ S, j ∈ addIdx M)
-    (hnd : S.Nodup) (hok : SupprOK M S) :
-    BlockEq (masked M (finalMask M S)) (news M) := by
+    (hnd : S.Nodup) (hok : SupprOK E M S) :
+    BlockEqG E (masked M (finalMask M S)) (news M) := by
   induction S with
-  | nil => rw [finalMask_nil, masked_new]; exact BlockEq.refl _
+  | nil => rw [finalMask_nil, masked_new]; exact BlockEqG.refl _
   | cons j S ih =>
     obtain ⟨hjS, hnd'⟩ := List.nodup_cons.mp hnd
     have hj : j ∈ addIdx M := hS j List.mem_cons_self
     have hS' : ∀ j' ∈ S, j' ∈ addIdx M := fun j' h => hS j' (List.mem_cons_of_mem _ h)
-    obtain ⟨d, hd, hline, hsw⟩ := hok j List.mem_cons_self
-    have hm : (M.getD d default).line.mkey = (M.getD j default).line.mkey := by rw [hline]
+    obtain ⟨d, hd, hm, hline, hsw⟩ := hok j List.mem_cons_self
     obtain ⟨hjl, hjn⟩ := mem_addIdx.mp hj
     obtain ⟨hdl, hdo⟩ := mem_delIdx.mp hd
     simp only [Cell.newOnly, Cell.oldOnly, Bool.and_eq_true, Bool.not_eq_true'] at hjn hdo
-    have hok' : SupprOK M S := by
+    have hok' : SupprOK E M S := by
       intro j' hj'
-      obtain ⟨d', hd', hline', hsw'⟩ := hok j' (List.mem_cons_of_mem _ hj')
-      refine ⟨d', hd', hline', ?_⟩
+      obtain ⟨d', hd', hm', hline', hsw'⟩ := hok j' (List.mem_cons_of_mem _ hj')
+      refine ⟨d', hd', hm', hline', ?_⟩
       intro k hk hb hp
       apply hsw' k hk hb
       rcases hp with hp | ⟨j'', hj'', hm''⟩
       · exact Or.inl hp
       · exact Or.inr ⟨j'', List.mem_cons_of_mem _ hj'', hm''⟩
-    refine BlockEq.trans ?_ (ih hS' hnd' hok')
+    refine BlockEqG.trans ?_ (ih hS' hnd' hok')
     rw [finalMask_step M hno hnn j S hj hjS hS' d hd hm]
-    apply masked_move M _ j d hjl hdl (by simp [finalMask])
+    apply masked_move E hEsw M _ j d hjl hdl (by simp [finalMask])
     · rw [finalMask_getD M _ j hjl]
       simp [hjn.1, hjn.2]
     · rw [finalMask_getD M _ d hdl]
